@@ -212,7 +212,7 @@ def _parse_triple(symbol, tokens):
         target = rest
     else:
         if comma:  # role(a, b) OR role(a,)
-            _next = tokens.accept('SYMBOL')
+            _next = tokens.accept('SYMBOL', 'STRING')
             if _next:
                 target = _next.text
         else:  # role(a , b) OR role(a ,b) OR role(a ,) OR role(a)
@@ -220,7 +220,7 @@ def _parse_triple(symbol, tokens):
             if not _next:  # role(a)
                 pass
             elif _next.text == ',':  # role(a , b) OR role(a ,)
-                _next = tokens.accept('SYMBOL')
+                _next = tokens.accept('SYMBOL', 'STRING')
                 if _next:  # role(a , b)
                     target = _next.text
             elif _next.text.startswith(','):  # role(a ,b)
